@@ -7,7 +7,7 @@ CONSTANTS
   TextApis = {"cint", "number", "string"}
   TextDsts = {"b", "y", "x", "t"}
   Bases = {0, 10, 16}
-  Alphabet = {32, 45, 43, 48, 49, 55, 57, 120, 102, 122}
+  Alphabet = {32, 45, 43, 48, 49, 57, 120, 102, 122}
   TextLen = 3
   ConverseDsts = {"f"}
   ConverseSrcs = {"c", "b", "y", "n", "q", "i", "u", "x", "t", "f", "d"}
